@@ -177,6 +177,9 @@ def main(argv):
             futs = {ex.submit(run_worker, pid, tier, specs[i], workdir, i): i for i in order}
             for fu in cf.as_completed(futs):
                 results[futs[fu]] = fu.result()
+        if os.environ.get("VERIF_SHARD_TIMES"):
+            for i, r in sorted(enumerate(results), key=lambda t: -t[1].get("wall_s", 0))[:8]:
+                print(f"  shard {i}: {r.get('wall_s', 0):.1f}s {json.dumps(specs[i])[:150]}")
         crashed = [r for r in results if "crashed" in r]
         crash_failures = []
         for r in crashed:
@@ -190,9 +193,15 @@ def main(argv):
         results = [r if "crashed" not in r else {"evaluations": 0, "nontrivial": 0, "failures": [], "samples": [], "stats": {}, "sets": {}} for r in results]
         herr = [r for r in results if "harness_error" in r]
         if herr:
-            for r in herr:
+            for r in herr[:6]:
                 print("HARNESS-ERROR:", r["harness_error"])
-            return 2
+            if len(herr) > 6:
+                print(f"HARNESS-ERROR: ... and {len(herr) - 6} more shard(s)")
+            if all("harness_error" in r for r in results):
+                return 2
+            # the other shards' results are still judged: a violation found there is reported (exit 1); without one the
+            # run counts as broken (exit 2)
+            results = [r if "harness_error" not in r else {"evaluations": 0, "nontrivial": 0, "failures": [], "samples": [], "stats": {}, "sets": {}} for r in results]
 
         evaluations = sum(r["evaluations"] for r in results)
         nontrivial = sum(r["nontrivial"] for r in results)
@@ -303,7 +312,7 @@ def main(argv):
                 print(f"  {k}={extra[k]}")
         if nviol:
             return 1
-        return 2 if not_reproduced else 0
+        return 2 if (not_reproduced or herr) else 0
     finally:
         shutil.rmtree(workdir, ignore_errors=True)
 
